@@ -171,7 +171,9 @@ def applyBlock (st : St) (p : Placement) : St :=
     match weightEntries bkeys offset p.molToBlock,
           p.refs.mapM (fun r => (C12.corrOf bkeys offset r.1).map (fun o => (o, r.2))) with
     | some wes, some newRefs =>
-      let overlap := atoms.filter (fun a => (dom st.molToOut).contains a)
+      -- `set(mol_to_out) & set(mol_to_block)` (in apply_block_mapping) united with
+      -- `block_matched_atoms.intersection(match[0])` (in do_mapping)
+      let overlap := atoms.filter (fun a => (dom st.molToOut).contains a || st.placed.any (fun k => k.contains a))
       let sp := spawnedOut bkeys offset p.molToBlock
       let es := wes ++ zeroEntries atoms sp
       { out := out1,
